@@ -272,7 +272,7 @@ class BackgroundDataStream(DataStream):
                  ascending=True,
                  t_start=0,
                  seed=None,
-                 antenna_streams=[]):
+                 antenna_streams=None):
         """
         Initialize a BackgroundDataStream object with a sampling rate and frequency range.
         The main extension is that we also pass in a list of DataStreams, belonging to all
@@ -305,7 +305,9 @@ class BackgroundDataStream(DataStream):
                          ascending=ascending,
                          t_start=t_start,
                          seed=seed)
-        self.antenna_streams = antenna_streams
+        # A list of its own when none is given: a mutable default would be one list shared 
+        # by every background stream created without members
+        self.antenna_streams = antenna_streams if antenna_streams is not None else []
         
     def _set_all_bg_noise(self):
         """
